@@ -164,10 +164,10 @@ Fixpoint parse_more (fuel : nat) (s : str) : option (list str * str) :=
       end
   end.
 
-(* split_by_commas: ParseException -> ValueError; stringEnd = only whitespace is left.
-   OtherError = the fuel ran out (Proofs/C19_Commas.v: it never does). *)
-Definition split_by_commas (v : str) : res (list str) :=
-  let s := expandtabs v in
+(* grammar.parseString on the tab-expanded text: ParseException -> ValueError;
+   stringStart always matches after the leading whitespace; stringEnd = only whitespace
+   is left.  OtherError = the fuel ran out (Proofs/C19_Commas.v: it never does). *)
+Definition parse_string (s : str) : res (list str) :=
   match parse_item s with
   | None => Exn ValueError
   | Some (it, r) =>
@@ -176,6 +176,7 @@ Definition split_by_commas (v : str) : res (list str) :=
       | Some (l, r') => match skip_ws r' with [] => Ok (it :: l) | _ :: _ => Exn ValueError end
       end
   end.
+Definition split_by_commas (v : str) : res (list str) := parse_string (expandtabs v).
 
 (* The writer's side of the convention split_by_commas inverts: an item containing a
    comma, a double quote, a backslash or a space is written between double quotes with
